@@ -283,7 +283,8 @@ def visit(
             else:
                 result = None
 
-        if result is None and is_edited:
+        if is_edited and (result is None or result is SKIP or result is False):
+            # no action on leave: keep the node rebuilt from the edits of its children
             edits.append((key, node))
 
         if is_leaving:
